@@ -21,7 +21,17 @@ RULE = (
 
 
 def units(tier, seed):
-    return P.standard_units(tier, None, reps_map=(), reps_e2=("tree",))
+    us = P.standard_units(tier, None, reps_map=(), reps_e2=("tree",))
+    # the other depth-counting mode on a sub-family (numeric labels only)
+    fam = G.general_family("quick")
+    for spec in fam:
+        n = spec["name"]
+        if G.has_form(spec, G.is_form("union")):
+            continue  # how many expansions a Union field hides is not defined consistently by the library itself
+        if n.split(":")[0] in ("S1", "S2", "S3", "S5", "S9", "S11", "S15", "S18") or (n.startswith("F1:") and "," not in n):
+            for dec in ("maxdepth", "pigrow"):
+                us.append({"kind": "tree-create", "spec": spec, "decider": dec, "depth_off": 2, "xd": True, "max_execs": 400 if tier == "quick" else 5000})
+    return us
 
 
 def nodes_of(v, out, path="$"):
@@ -40,9 +50,27 @@ def owns_list(v) -> bool:
     return any(isinstance(getattr(v, n), list) for n in R._field_names(type(v)))
 
 
+def oracle_expansion(ctx, ev, r, tm):
+    nodes: list = []
+    nodes_of(ev.result, nodes)
+    for path, v in nodes:
+        r.count("nodes_checked_expansion_mode")
+        want = R.ref_labels_expansion(v, ctx.view)
+        got = (getattr(v, "gengy_nodes", None), getattr(v, "gengy_distance_to_term", None), getattr(v, "gengy_weighted_nodes", None))
+        if got != want:
+            which = [n for n, a, b in zip(("gengy_nodes", "gengy_distance_to_term", "gengy_weighted_nodes"), got, want) if a != b][0]
+            r.add_violation(Violation(PROP, P.site_of(ev), "label:" + which, {"owns_list": owns_list(v), "op": ev.op, "mode": "expansion"},
+                                      {"unit": P.clean_unit(ctx.unit), "choices": list(ev.choices), "path": path, "program": R.show(tm)[:300]},
+                                      f"{ctx.spec['name']} (expansion_depthing=True): node {R.show(R.term(v))[:80]} at {path}: "
+                                      f"(nodes, distance, weighted) = {got}, structure gives {want}"))
+            return
+
+
 def oracle(ctx, ev, r, tm):
     if tm is None or ev.rep != "tree":
         return
+    if ctx.unit.get("xd"):
+        return oracle_expansion(ctx, ev, r, tm)
     nodes: list = []
     nodes_of(ev.result, nodes)
     parent_ids = set()
@@ -103,6 +131,7 @@ def finalize(cr):
     cr.require("nodes_checked")
     cr.require("nodes_owning_a_list")
     cr.require("nodes_reused_from_parent")
+    cr.require("nodes_checked_expansion_mode")
     cr.assumptions += [
         "tree-depth mode only (expansion_depthing=False); label convention pinned by tests/representations/tree_based/relabel_test.py "
         "(field-less nodes and builtin values are terminals with all labels 0)",
